@@ -1,7 +1,7 @@
 """C10 — streaming progress and flush decodability, judged on every transition of the C02 history search; hint-following decoder."""
 RULE = ('same history search as C02 (6 configurations x 3 inputs x all call histories of depth d, state caching on the context image) with the C10 oracles on every transition: '
         '(a) a call given consumable input and writable output consumes, produces or reports completion; (b) at every state where flush (or end) returned 0 a streaming decoder '
-        'fed the bytes emitted so far regenerates exactly the bytes consumed so far; drain loops have a step horizon; multithreaded flush points are judged inside C11 drivers D2/D6; '
+        'fed the bytes emitted so far regenerates exactly the bytes consumed so far; drain loops have a step horizon; multithreaded: drivers D2 / D12 (/ D6) of the C11 harness under every schedule of the bound, same flush oracle; '
         'distinct = distinct emitted streams; non-trivial = history with a completed flush/end')
 SRC = ['harness/c02_cstream.c', 'ref/edu_decoder.c']
 
@@ -11,6 +11,9 @@ def run(vc, tier):
     d = 3 if tier == 'quick' else 4
     c.run_vx_unit('c10-cstream2', SRC, 'asan', ['--depth', d, '--api', 0, '--ncfg', 4 if tier == 'quick' else 6, '--judge', 2], share=0.6, states_from=('transitions', 'transitions'))
     c.run_vx_unit('c10-classic', SRC, 'asan', ['--depth', d - 1 if tier == 'quick' else d, '--api', 1, '--ncfg', 4 if tier == 'quick' else 6, '--judge', 2], share=0.3, states_from=('transitions', 'transitions'))
+    # multithreaded flush points: the C11 drivers with flushes (D2: 7-byte outputs; D12: flush carrying new input while all workers are busy; D6: abandon/restart)
+    for drv, P, D in ([(2, 2, 2), (12, 2, 2)] if tier == 'quick' else [(2, 2, 3), (12, 2, 3), (6, 1, 2)]):
+        c.run_vx_unit('c10-mt-d%d' % drv, ['harness/c11_mt.c', 'ref/edu_decoder.c'], 'sched-asan', ['--driver', drv, '--P', P, '--D', D, '--exec-timeout', 20000], engine_srcs=['engine/vsched.c'], share=0.3)
     import C10_hints
     C10_hints.run_units(vc, c, tier)
     c.states = sum(r.done.get('visited', 0) for _, r, _ in c.units)
